@@ -25,7 +25,7 @@ Ev     == Evs[pos]
 
 tvars == <<th, conns, lock, pre, committed, faults, fowner, forks, npid, dead, flags, tid, pos>>
 
-ASSUME \A i \in 1..(2 * NT) : TLCSet(i, 0)
+ASSUME \A i \in 1..NT : TLCSet(i, 0) /\ TLCSet(NT + i, <<0, "">>)
 
 TInit ==
     /\ tid \in 1..NT
@@ -123,6 +123,7 @@ TSpec == TInit /\ [][TNext]_tvars
 
 FailedInv ==
     CASE ~TypeOK -> "TypeOK"
+      [] ~NoForeignConnUse -> "NoForeignConnUse"
       [] ~LockReleased -> "LockReleased"
       [] ~LockConsistent -> "LockConsistent"
       [] ~ConnAccounted -> "ConnAccounted"
@@ -132,17 +133,16 @@ FailedInv ==
       [] ~RetryBound -> "RetryBound"
       [] ~AttemptStartsClean -> "AttemptStartsClean"
       [] ~OutermostOnly -> "OutermostOnly"
-      [] ~NoForeignConnUse -> "NoForeignConnUse"
       [] OTHER -> ""
 
 \* CONSTRAINT: bookkeeping per trace id; a state that violates an invariant is recorded and not extended
 Track ==
     LET f == FailedInv IN
     IF f = "" THEN (IF pos > TLCGet(tid) THEN TLCSet(tid, pos) ELSE TRUE)
-    ELSE /\ (IF TLCGet(NT + tid) = 0 THEN TLCSet(NT + tid, <<pos, f>>) ELSE TRUE)
+    ELSE /\ (IF TLCGet(NT + tid)[1] = 0 THEN TLCSet(NT + tid, <<pos, f>>) ELSE TRUE)
          /\ FALSE
 
 \* POSTCONDITION: write, per trace id, the furthest position and the violated invariant (0 = none)
 Report == JsonSerialize(IOEnv.OUT, [i \in 1..NT |-> [reached |-> TLCGet(i), len |-> Len(Traces[i].evs),
-                                                   inv |-> IF TLCGet(NT + i) = 0 THEN <<0, "">> ELSE TLCGet(NT + i)]])
+                                                   inv |-> TLCGet(NT + i)]])
 =============================================================================
